@@ -77,7 +77,7 @@ def streams(tier, rng, P, only=None, cases=None):
         cs = []
         n = 3000 if big else 500
         for i in range(n):
-            form = rng.choice(["rest", "note", "noten", "l", "bang_time", "bang_arg", "after_res", "nol", "nol", "div", "div", "divin", "chord", "chord"])
+            form = rng.choice(["rest", "note", "noten", "l", "lsub", "bang_time", "bang_arg", "after_res", "nol", "nol", "div", "div", "divin", "chord", "chord"])
             text, s, k = gen_expr(rng, True, layout=(form in ("rest", "note", "l") and rng.random() < 0.4))
             tb = rng.choice([48, 96, 120, 480, 960])
             tbw = tb      # the number written after TimeBase (form `nol` also writes numbers outside 48..32767: the time base in effect is the clamped one)
@@ -111,9 +111,12 @@ def streams(tier, rng, P, only=None, cases=None):
                 # (the rest may follow the length directly, also after dots alone: `l.r`, `l4.r`)
                 sep = "" if (text and text[-1] in ".0123456789" and rng.random() < 0.5) else " "
                 src = "TimeBase(%d) l%s%sr n60" % (tb, text, sep); ds = None
+            elif form == "lsub":
+                # a default length set inside Sub{ } (or a loop) stays in force after the block: only a tuplet restores it
+                src = "TimeBase(%d) l1 %s r n60" % (tb, rng.choice(["Sub{ l%s c }", "Sub{ l%s }", "[1 l%s ] Sub{ c }", "Sub{ Sub{ l%s } d }"]) % text); ds = None
             elif form == "bang_time": src = "TimeBase(%d) TIME(!%s) n60" % (tb, text); ds = "bang"
             else: src = "TimeBase(%d) TIME=!%s; n60" % (tb, text); ds = "bang"
-            if not text and form in ("bang_time", "bang_arg", "l"):
+            if not text and form in ("bang_time", "bang_arg", "l", "lsub"):
                 continue
             cs.append(dict(req="run " + hx(src), src=src, show=src, syn=s, dsyn=ds, form=form, tb=tb, k=k, key="p%d" % i, off=(off if form == "after_res" else 0)))
         return cs
